@@ -74,7 +74,23 @@ def _path_chain(prog, cg, eff, chk, W1, entry, rewriters, label):
         seen.add(key)
         inst = '%s: %s hands the path it stored (%s) down to %s at %s' % (
             label, _short(caller.qualname), own[-1].loc if own else '?', _short(callee), locstr(node))
-        if own and any(a is w.value for a in args for w in own):
+        # the crate that receives "parent path + own title" must be an immediate child of the crate
+        # whose path is handed down: it is taken from the parent relation, not from the closure
+        rel = set()
+        for a in args:
+            for x in vf.leaves(a):
+                if x[0] == 'loc' and (x[1] or '').lower() in ('crateparentlist', 'cratehierarchy',
+                                                                'listparentlist', 'listhierarchy'):
+                    rel.add((x[1] or '').lower())
+        closure = {t for t in rel if 'hierarchy' in t}
+        if closure:
+            chk.violation(W1, '%s|%s->%s walks the closure' % (label, _short(caller.qualname), _short(callee)),
+                          locstr(node),
+                          '%s: the crate passed with that path is read from %s (all descendants), not from the '
+                          'immediate-parent relation: a crate two levels below gets "<this path><its title>;" and '
+                          'loses the levels in between, so Crate.path disagrees with CrateParentList / CrateHierarchy'
+                          % (inst, ', '.join(sorted(closure))))
+        elif own and any(a is w.value for a in args for w in own):
             chk.ok(W1, inst, locstr(node))
         else:
             chk.violation(W1, '%s|%s->%s path argument' % (label, _short(caller.qualname), _short(callee)), locstr(node),
@@ -365,6 +381,10 @@ def run(tier='quick'):
                   floor=150)
     domains.apply_rule(prog, eff, chk, W7)
     domains.apply_bind_rule(prog, cg, eff, chk, W7)
+    W10 = chk.rule('W10', 'verify() after reopening judges the file by the validator of the version stamped in it: each '
+                          'creator stamps the triple of its own class', floor=50)
+    from . import c13 as _c13
+    _c13.version_stamp(prog, chk, W10)
     W9 = chk.rule('W9', 'a constant the track writers store in a foreign-key column of Track names a row that every '
                         'supported creator of the generation inserts (default album art entry)', floor=18)
     _default_rows(prog, cg, eff, chk, W9)
